@@ -5,7 +5,8 @@ import PyramidModel.Gen.C13Skeleton
 /-! Driver for C13: one JSON case per line.
 
 {"op":"pipeline","xv":b,"base":n,"req":REQ}
-   REQ = {"tw":b,"route":b,"faults":[[point,kind],…],"regs":[[stage,"resp"|"fin",kind|null],…],"xx":kind|null,"subs":[REQ,…]}
+   REQ = {"tw":b,"route":b,"faults":[[point,kind],…],"regs":[[stage,"resp"|"fin",kind|null],…],"xx":kind|null,
+          "xo":null|[kind,kind|null,otherRegistry],"subs":[REQ,…]}
    -> {"tree":TREE}   TREE = {"own":[event,…],"out":"resp"|"plain"|"http","depth":n,"kids":[TREE,…]}
 {"op":"exec","entry":name,"depth":n,"raises":[[site,k],…],"takes":[[site,k],…],"iters":[[site,k,n],…],"quiet":[site,…]}
    -> {"depth":n,"outcome":"normal"|"returned"|"raised","trace":[[site,depth,flag],…] (oldest first),
@@ -79,9 +80,13 @@ partial def parseReq (j : Json) : Except String Req := do
       pure (Reg.mk (← parsePoint st) kind (← optKind f))
     | _ => throw "bad reg"
   let xx ← optKind (optField j "xx")
+  let xo ← match optField j "xo" with
+    | .null => pure none
+    | .arr #[.str k, f, .bool other] => do pure (some ((← parseKind k), (← optKind f), other))
+    | _ => throw "bad xo"
   let subs ← (← arrField j "subs").mapM parseReq
   let cfg : Pipeline.Cfg := { useTweens := boolField j "tw", route := boolField j "route", faults := faults,
-                              regs := regs, explicitXv := xx }
+                              regs := regs, explicitXv := xx, explicitOther := xo }
   pure (.mk cfg (subs.foldr (fun r rs => Reqs.cons r rs) Reqs.nil))
 
 def cbName : CbKind → String
